@@ -169,6 +169,17 @@ def STP_set_id (prio ext extL mac : Mem) (v X : Nat) : Nat :=
   stP extL (ext_id &&& 0xff) X3
 end STP
 
+section Dot11   -- little-endian view; src/dot11/dot11_mgmt.cpp:85-100, dot11_data.cpp:99-113, dot11_control.cpp:166-233
+/-- `return w & 0xf;`  (frag_num, bar_control, fragment_number; `w` a host uint16_t member) -/
+def LE16_get_low4 (m : Mem) (X : Nat) : Nat := (memGet .le 0 m X) &&& 0xf
+/-- `w = v | (w & 0xfff0);` -/
+def LE16_set_low4 (m : Mem) (v X : Nat) : Nat := memSet .le 0 m ((v ||| ((memGet .le 0 m X) &&& 0xfff0)) % 65536) X
+/-- `return (w >> 4) & 0xfff;`  (seq_num, start_sequence) -/
+def LE16_get_hi12 (m : Mem) (X : Nat) : Nat := ((memGet .le 0 m X) >>> 4) &&& 0xfff
+/-- `w = (v << 4) | (w & 0xf);` -/
+def LE16_set_hi12 (m : Mem) (v X : Nat) : Nat := memSet .le 0 m (((v <<< 4) ||| ((memGet .le 0 m X) &&& 0xf)) % 65536) X
+end Dot11
+
 /-- the hand-written models, with the position each one is proved to implement (view of the class) -/
 def table : List CustomAcc := [
   ⟨"IP", "flags", 109, 3, 1, IP_get_flags, IP_set_flags⟩,
@@ -198,6 +209,13 @@ def table : List CustomAcc := [
   ⟨"STP", "max_age", 32, 16, 256, STP_get_timer STP_max_age, STP_set_timer STP_max_age⟩,
   ⟨"STP", "hello_time", 16, 16, 256, STP_get_timer STP_hello_time, STP_set_timer STP_hello_time⟩,
   ⟨"STP", "fwd_delay", 0, 16, 256, STP_get_timer STP_fwd_delay, STP_set_timer STP_fwd_delay⟩,
+  ⟨"Dot11Data", "frag_num", 176, 4, 1, LE16_get_low4 Dot11Data_frag_seq, LE16_set_low4 Dot11Data_frag_seq⟩,
+  ⟨"Dot11Data", "seq_num", 180, 12, 1, LE16_get_hi12 Dot11Data_frag_seq, LE16_set_hi12 Dot11Data_frag_seq⟩,
+  ⟨"Dot11Beacon", "frag_num", 176, 4, 1, LE16_get_low4 Dot11Beacon_frag_seq, LE16_set_low4 Dot11Beacon_frag_seq⟩,
+  ⟨"Dot11Beacon", "seq_num", 180, 12, 1, LE16_get_hi12 Dot11Beacon_frag_seq, LE16_set_hi12 Dot11Beacon_frag_seq⟩,
+  ⟨"Dot11BlockAckRequest", "bar_control", 128, 4, 1, LE16_get_low4 Dot11BlockAckRequest_bar_control_, LE16_set_low4 Dot11BlockAckRequest_bar_control_⟩,
+  ⟨"Dot11BlockAckRequest", "fragment_number", 144, 4, 1, LE16_get_low4 Dot11BlockAckRequest_start_sequence_, LE16_set_low4 Dot11BlockAckRequest_start_sequence_⟩,
+  ⟨"Dot11BlockAckRequest", "start_sequence", 148, 12, 1, LE16_get_hi12 Dot11BlockAckRequest_start_sequence_, LE16_set_hi12 Dot11BlockAckRequest_start_sequence_⟩,
   ⟨"VXLAN", "flags", 56, 8, 1, VXLAN_get_flags, VXLAN_set_flags⟩,
   ⟨"VXLAN", "vni", 8, 24, 1, VXLAN_get_vni, VXLAN_set_vni⟩
 ]
